@@ -48,6 +48,8 @@ def run(ctx):
     c01.r119_views(ctx, 'R6.9')
     from . import c07
     c07.r77(ctx, 'R6.8')
+    from . import meta_rules
+    meta_rules.rowcount_rule(ctx, 'R6.14', only_modules={'api'})
     r611(ctx)
     r612(ctx, api)
     r613(ctx, api)
@@ -102,6 +104,35 @@ def _must_assign(api, qual, seen=None):
     return out
 
 
+# caches of a handle that a selection of its row groups may share with it (one line of reason each)
+DATASET_LEVEL_MEMOS = {
+    '_kvm': 'footer key-values: the same footer for every selection',
+    '_pdm': 'pandas metadata decoded from the key-values',
+    '_categories': 'category columns named by the pandas metadata',
+    '_columns_dtype': 'dtype of the column labels, from the pandas metadata',
+    '_base_dtype': 'schema-level dtypes (statistics-dependent parts are recomputed by _dtypes)',
+    'tz': 'time zones from the pandas metadata',
+    'fs': 'file system of the dataset',
+}
+
+
+def state_form(call):
+    """how __getitem__ hands state to the new handle: ('literal', {key: value node}) for a dict display of named
+    entries, ('whole', {key: value node}) for the parent's __dict__ with named replacements, (None, {}) otherwise"""
+    a = call.args[0] if call.args else None
+    if isinstance(a, ast.Dict):
+        if all(isinstance(k, ast.Constant) for k in a.keys):
+            return 'literal', {k.value: v for k, v in zip(a.keys, a.values)}
+        stars = [v for k, v in zip(a.keys, a.values) if k is None]
+        if len(stars) == 1 and norm(stars[0]) == 'self.__dict__' and a.keys[0] is None:
+            return 'whole', {k.value: v for k, v in zip(a.keys, a.values) if isinstance(k, ast.Constant)}
+        return None, {}
+    if isinstance(a, ast.Call) and norm(a.func) == 'dict' and len(a.args) == 1 and norm(a.args[0]) == 'self.__dict__' \
+            and all(k.arg for k in a.keywords):
+        return 'whole', {k.arg: k.value for k in a.keywords}
+    return None, {}
+
+
 def r61(ctx, api):
     cls, defaults, methods = _class_info(api)
     # routes
@@ -109,13 +140,37 @@ def r61(ctx, api):
     st_call = [c for c in ast.walk(gi) if isinstance(c, ast.Call) and callee(c) == 'new_pf.__setstate__']
     if not st_call:
         raise AnalysisError('R6.1: __setstate__ call of __getitem__ not found')
-    literal = isinstance(st_call[0].args[0], ast.Dict)
-    ctx.ob('R6.1', 'api.__getitem__:sliced-handle-state-is-an-explicit-dict', literal,
-           'the state handed to the sliced handle is `%s`: copying the parent\'s whole __dict__ also copies caches computed '
-           'from the parent\'s row groups (statistics, categories)' % norm(st_call[0].args[0])[:80], api.loc(gi))
-    if not literal:
+    form, given = state_form(st_call[0])
+    built = _must_assign(api, 'ParquetFile._set_attrs')
+    if form is None:
+        ctx.ob('R6.1', 'api.__getitem__:selection-does-not-inherit-caches-computed-from-the-parents-row-groups', False,
+               'the state handed to the selected handle is `%s`: neither a dict of named entries nor the parent\'s __dict__ with '
+               'named replacements' % norm(st_call[0].args[0])[:80], api.loc(gi))
         return
-    slice_keys = {k.value for k in st_call[0].args[0].keys if isinstance(k, ast.Constant)}
+    if form == 'whole':
+        # everything the parent carries is inherited: fine for what a selection shares with its dataset, wrong for
+        # anything computed from the parent's row groups unless _set_attrs rebuilds it (or it is replaced by name)
+        memo = {}
+        for q, f in api.funcs.items():
+            if not q.startswith('ParquetFile.') or q.split('.')[1] in ('__init__', '_set_attrs', '__setstate__', '_parse_header', '_read_partitions'):
+                continue
+            for st in walk_no_nested(f):
+                if isinstance(st, ast.Assign):
+                    for t in st.targets:
+                        if isinstance(t, ast.Attribute) and norm(t.value) == 'self':
+                            memo.setdefault(t.attr, q)
+        for attr, q in sorted(memo.items()):
+            if attr in DATASET_LEVEL_MEMOS:
+                continue
+            ok = attr in built or attr in given
+            ctx.ob('R6.1', 'api.__getitem__:selection-does-not-inherit-caches-computed-from-the-parents-row-groups:%s' % attr, ok,
+                   'self.%s is filled by %s and copied to the selection with the parent\'s whole __dict__; _set_attrs does not '
+                   'rebuild it, so the selection answers with the parent\'s value' % (attr, q), api.loc(gi))
+        ctx.ob('R6.1', 'api.__setstate__:installs-the-state-dict-and-builds-the-handle',
+               any(norm(s_) == 'self.__dict__.update(state)' for s_ in api.func('ParquetFile.__setstate__').body) and
+               any(norm(s_) == 'self._set_attrs()' for s_ in api.func('ParquetFile.__setstate__').body), '', api.loc(gi))
+        return
+    slice_keys = set(given)
     gs = api.func('ParquetFile.__getstate__')
     ret = [s for s in gs.body if isinstance(s, ast.Return)]
     if not ret or not isinstance(ret[0].value, ast.Dict):
@@ -125,7 +180,6 @@ def r61(ctx, api):
     ctx.ob('R6.1', 'api.__setstate__:installs-the-state-dict-and-builds-the-handle',
            any(norm(s) == 'self.__dict__.update(state)' for s in ss_.body) and
            any(norm(s) == 'self._set_attrs()' for s in ss_.body), '', api.loc(ss_))
-    built = _must_assign(api, 'ParquetFile._set_attrs')
     routes = {'slice': slice_keys | built | defaults, 'pickle/copy': pickle_keys | built | defaults}
     ctx.stat('R6.1 attributes (re)built by _set_attrs on every path', sorted(built))
     ctx.floor('R6.1', 'attributes built by _set_attrs', len(built), 8)
